@@ -87,6 +87,19 @@ CLAIMED = {
     note=TRUST + " Only independent additions are generated; A+A == A is deliberately not demanded.",
     technique="deterministic simulation: replicas diverge by seeded independent updates, deliveries reordered/duplicated, convergence and no-loss oracles",
   ),
+  "C10": dict(
+    category="exploration",
+    text=("Every library call in every simulated world runs under catch_unwind with a counting global allocator armed (budget "
+          "64 MiB + 32 x input length) inside a supervised child process, so unwinding panics, over-allocation AND non-unwinding deaths "
+          "(allocation abort, SIGSEGV in the C library, stack overflow) are localised to a run, replayed in a fresh process and reported. "
+          "A dedicated surface world feeds 13 groups of fallible APIs (address/blech32/PSET text, scripts, control blocks, Schnorr "
+          "signatures, proofs, commitments from slices, accessors on decoded transactions/blocks, PSET operations, blinding, taproot "
+          "builder, metadata) with what the medium delivers after faults on real encodings, random data, and structurally valid but "
+          "semantically arbitrary arguments."),
+    design_ref="DESIGN.md §4 C10",
+    note=TRUST + " Documented-panic conditions are excluded; stack depth and time complexity are not examined.",
+    technique="deterministic simulation with fault injection: faulted inputs from the medium + allocator seam + supervised child process for aborts",
+  ),
   "C13": dict(
     category="exploration",
     text=("One simulated signer issues seeded histories (<= 24 steps) of legacy / segwit-v0 / taproot digest queries, the three "
